@@ -29,7 +29,7 @@ COMMON_DROPPED = [
 ]
 
 COMMON_TRUSTED = [
-    'cbmc 6.11.0 (goto-cc, goto-instrument --dfcc, SAT back end minisat) and its C semantics',
+    'cbmc 6.11.0 (goto-cc, goto-instrument --dfcc, propositional back end with the built-in cadical SAT solver) and its C semantics',
     'vf/cxx2c.py vocabulary rewrite of the extracted bodies (token map listed in DESIGN 4.1)',
     'the C struct mirrors and stub interface contracts in units/*.py',
     'rely/guarantee soundness meta-theorem (Jones): guarantees checked per step, relies closed under composition (lemma jobs)',
@@ -258,14 +258,14 @@ def do_check(ctx, args, t0):
             'obligations': n_obl, 'discharged': n_dis,
             'checker_cmd': 'goto-cc --function <harness> unit.c; goto-instrument --dfcc <harness> --enforce-contract <f> '
                            '[--replace-call-with-contract <g>] [--apply-loop-contracts]; cbmc --bounds-check --pointer-check '
-                           '--div-by-zero-check (back end: built-in SAT/minisat)',
+                           '--div-by-zero-check --sat-solver cadical',
             'trusted_base': trusted,
             'explanation': 'Per-function code contracts on C text extracted mechanically from %s on this run; every obligation '
                            'listed was generated by goto-instrument from the current source and discharged by cbmc without '
                            'unwinding (loops closed by loop contracts) unless listed under bounded_checks.' % ctx.repo,
             'jobs': len(results), 'jobs_ok': sum(r.status == 'ok' for r in results),
             'functions_under_contract': sorted(funcs.values(), key=lambda x: (x['file'], x['lines'][0])),
-            'backend': 'cbmc 6.11.0 SAT (minisat2), no quantifiers',
+            'backend': 'cbmc 6.11.0, propositional back end, SAT solver cadical (built in), no quantifiers',
             'solver_time_s': round(solver, 2),
             'bounded_checks': bounded, 'bounded_obligations': n_bounded, 'bounded_discharged': n_bounded_ok,
             'canaries_reached': canaries,
